@@ -3,8 +3,8 @@
 (* one keyed table, up to MaxDepth actions after the setup.                 *)
 EXTENDS Engine, Json
 CONSTANTS MaxDepth, Keys, Vals, Names
-VARIABLES st, hist
-vars == <<st, hist>>
+VARIABLES st, hist, base
+vars == <<st, hist, base>>
 
 \* one secondary index exists from the start and can be dropped / re-created inside a transaction: the
 \* index registry and the index contents are part of what ROLLBACK / ROLLBACK TO must restore (the harness
@@ -28,10 +28,16 @@ Alphabet ==
 \* savepoint names are not re-used while live (SQL leaves the meaning of duplicates to the dialect)
 Enabled(s, a) == ~(a.a = "sp" /\ s.txn.active /\ SpExists(s, a.n))
 
-Init == st = Run(InitSt, Setup) /\ hist = Setup
-Next == \E a \in Alphabet : Enabled(st, a) /\ st' = Apply(st, a).st /\ hist' = Append(hist, a)
+\* Several initial states (empty table; populated table; populated table inside an open transaction, with and
+\* without a savepoint taken before a change): the depth bound counts the actions AFTER the prefix, so the
+\* bounded search reaches nested-savepoint histories that would otherwise need two or three more levels.
+R(k, v) == InsertV("T1", << <<I(k), I(v)>> >>)
+Prefixes == { <<>>, << R(1, 0) >>, << R(1, 0), R(2, 1), [a |-> "begin"] >>,
+              << R(1, 0), [a |-> "begin"], [a |-> "sp", n |-> "A"], UpdateA("T1", << [c |-> "V", e |-> Lit(I(1))] >>, IdEq(1)) >> }
+Init == \E pre \in Prefixes : st = Run(InitSt, Setup \o pre) /\ hist = Setup \o pre /\ base = Len(Setup \o pre)
+Next == \E a \in Alphabet : Enabled(st, a) /\ st' = Apply(st, a).st /\ hist' = Append(hist, a) /\ base' = base
 View == st
-Bound == Len(hist) < MaxDepth + Len(Setup)
+Bound == Len(hist) < MaxDepth + base
 Emit == PrintT(<<"REPLAY", ToJson(hist')>>)
 
 \* design-level properties checked on the model itself
